@@ -210,8 +210,11 @@ class TransferFrameDataField:
 
     @tfdz.setter
     def tfdz(self, tfdz: bytes):
+        size = self.header_len() + len(tfdz)
+        if size > USLP_TFDF_MAX_SIZE - self.header_len():
+            raise ValueError("TFDZ too large")
         self._tfdz = tfdz
-        self._size = self.header_len() + len(tfdz)
+        self._size = size
 
     def header_len(self) -> int:
         return 1 if self.fhp_or_lvop is None else 3
